@@ -92,6 +92,8 @@ let parse_op tok =
   | "app_pc" -> OAppPC (cs 1, num 2) | "app_c" -> OAppC (cs 1)
   | "app_it" -> OAppIt (num 1, num 2)
   | "sprintf" -> OSprintf (str 1)
+  | "sprintf_lc" -> OSprintfFail (false, str 1)
+  | "sprintf_wide" -> OSprintfFail (true, str 1)
   | "rep_fs" -> ORepFs (num 1, num 2)
   | "rep_s" -> ORepS (num 1, num 2, str 3)
   | "rep_fss" -> ORepFss (num 1, num 2, num 3, num 4)
